@@ -40,9 +40,9 @@ from fsim import stubs
 from fsim.world import World, stable_hash
 from machines.build import BUILD_STUBS
 
-SER_FNS = ['n0', 'n1', 'N2', 'N3']
+SER_FNS = ['n0', 'n1', 'N2', 'N3', 'n6']
 NAMES = {'n0': ['x', 'y', 'z'], 'n1': ['y', 'extra'], 'N2': ['x', 'k'],
-         'N3': ['x', 'y']}
+         'N3': ['x', 'y'], 'n6': ['x', 'y', 'k']}
 TAGS = ['T0', 'T1', 'U0']
 EVIL = [['builtins', 'eval'], ['builtins', 'exec'], ['os', 'system'],
         ['subprocess', 'call'], ['fsim.stubmod', 'denied_fn'],
